@@ -26,7 +26,7 @@ ASSUMPTIONS = [
 COMPONENTS = {'real': ['yldprolog.engine assert_fact/Answer/match_dynamic/assertz/asserta builtins, unify', 'compiled wrapper clauses'],
               'stub': ['scheduler holding the open unifications and suspended uses'],
               'oracle': ['copy-semantics model: ASSERT stores resolve(term, current substitution) with remaining variables made fact-local; every USE renames the fact apart']}
-REQUIRED_PROBES = ('independent_use_stepped_while_others_suspended', 'assert_with_bound_variable', 'assert_with_unbound_variable', 'assert_bound_inside_structure', 'use_answer', 'use_while_other_use_suspended',
+REQUIRED_PROBES = ('fault_assert_overflow', 'fault_use_aborted', 'independent_use_stepped_while_others_suspended', 'assert_with_bound_variable', 'assert_with_unbound_variable', 'assert_bound_inside_structure', 'use_answer', 'use_while_other_use_suspended',
                    'use_after_binding_changed', 'nonground_fact_answered', 'route_fact', 'route_query', 'route_wrapv', 'route_inline')
 
 _WRAP = None
@@ -122,6 +122,15 @@ def gen(seed, tier):
             ops.append(['IUSE', rng.choice('qqr'), pat])
         elif k < 0.92:
             ops.append(['ISTEP', rng.randrange(3)])
+        elif k < 0.94:
+            # depth faults: an assert whose copy overflows the stack half-way, or a use of a deep non-ground fact
+            # that is aborted by the recursion limit; both are handled by the caller
+            dk = rng.choice(('list', 'nest'))
+            ops.append(rng.choice([['FAULTASSERT', dk, small_term(rng, nv, 1, 0.9)]] + [['DEEPFACT', dk, rng.randrange(nv)], ['FAULTUSE', 0],
+                                   ['IUSE', 'q', [['deep', dk, ['a', rng.choice('ab')]]]]] * 2))
+            if ops[-1][0] == 'DEEPFACT' and rng.random() < 0.7:
+                # the typical sequence: the first use of the deep fact is aborted, then two uses that bind its variable differently
+                ops += [['FAULTUSE', 0], ['IUSE', 'q', [['deep', dk, ['a', 'a']]]], ['IUSE', 'q', [['deep', dk, ['a', 'b']]]], ['ISTEP', 0]]
         else:
             ops.append(['STEP'])
     return {'nv': nv, 'ops': ops}
@@ -135,9 +144,15 @@ def show_op(op):
     if op[0] == 'USE':
         return 'USE p(%s)' % ','.join(TM.show(TM.T(t)) for t in op[1])
     if op[0] == 'IUSE':
-        return 'start independent %s p(%s)' % ('query' if op[1] == 'q' else 'retract', ','.join(TM.show(TM.T(t)) for t in op[2]))
+        return 'start independent %s p(%s)' % ('query' if op[1] == 'q' else 'retract', ','.join(('<150-deep %s ending in %s>' % (t[1], TM.show(TM.T(t[2]))) if t[0] == 'deep' else TM.show(TM.T(t))) for t in op[2]))
     if op[0] == 'ISTEP':
         return 'step independent use #%d' % op[1]
+    if op[0] == 'FAULTASSERT':
+        return 'FAULT assert_fact p(%s, <150-deep %s>) with 60 frames of stack left (raises, handled)' % (TM.show(TM.T(op[2])), op[1])
+    if op[0] == 'DEEPFACT':
+        return 'assertz p(<150-deep %s ending in _V%d>)' % (op[1], op[2])
+    if op[0] == 'FAULTUSE':
+        return 'FAULT use p(_) with 60 frames of stack left (aborted by RecursionError if it meets a deep fact; handled)'
     return ' '.join(str(x) for x in op)
 
 
@@ -333,12 +348,60 @@ def execute(plan):
                     continue
                 if not step_use(stack[-1]):
                     break
+            elif kind == 'FAULTASSERT':
+                from ..machine import deep_model_term, LowRecursionLimit
+                t = norm(TM.T(op[2]))
+                eargs = [pool.build(t), pool.build(deep_model_term(op[1], 150))]
+                raised = False
+                with LowRecursionLimit(60):
+                    try:
+                        yp.assert_fact(yp.atom('p'), eargs)
+                    except RecursionError:
+                        raised = True
+                if not raised:
+                    # it fitted after all (cannot happen with 150 levels in 60 frames, but stay consistent)
+                    model.add(('p', 2), [TM.rename(x, {}, model.fresh) for x in (TM.resolve(t, s), deep_model_term(op[1], 150))], False)
+                log.count('fault_assert_overflow')
+                log.ev('faultassert', raised)
+                if pool.observe_all() != pool.model_all(s):
+                    log.violation('assert-changed-bindings', {'op': show_op(op)})
+                    break
+            elif kind == 'DEEPFACT':
+                from ..machine import deep_model_term
+                vi = op[2] % len(pool)
+                # the only variable sits at the bottom of the deep structure
+                term = deep_model_term(op[1], 150, ('v', vi))
+                yp.assert_fact(yp.atom('p'), [pool.build(term)])
+                m_ = {}
+                rec = model.add(('p', 1), [TM.rename(TM.resolve(term, s), m_, model.fresh)], False)
+                meta[rec[0]] = {'bound': False, 's': s, 'vars': [vi]}
+                log.count('deep_nonground_fact')
+                log.ev('deepfact')
+            elif kind == 'FAULTUSE':
+                from ..machine import LowRecursionLimit
+                # a use of p/1 or p/2 with fresh variables, run to its end with little stack: it either completes
+                # or is aborted by RecursionError when it reaches a deep fact; nothing is kept of it
+                ar_ = 1 + op[1] % 2
+                vs_ = [yp.variable() for _ in range(ar_)]
+                outcome = 'completed'
+                with LowRecursionLimit(60):
+                    try:
+                        n_ = 0
+                        for _ in yp.query('p', vs_):
+                            n_ += 1
+                            if n_ > 200:
+                                break
+                    except RecursionError:
+                        outcome = 'aborted'
+                log.count('fault_use_' + outcome)
+                log.ev('faultuse', ar_, outcome)
             elif kind in ('IUSE', 'ISTEP'):
                 if kind == 'IUSE':
                     if len(indep) >= 3:
                         log.ev('noop')
                         continue
-                    pat = [TM.T(t) for t in op[2]]
+                    from ..machine import deep_model_term
+                    pat = [deep_model_term(t[1], 150, TM.T(t[2])) if t[0] == 'deep' else TM.T(t) for t in op[2]]
                     local = {}
                     mpat = [TM.rename(t, local, model.fresh) for t in pat]
                     vm = {}
